@@ -1,4 +1,5 @@
 import Mimium.Model.LexerIO
+import Mimium.Model.CstGrammarIO
 /-! `drv_c13`: line protocol driver for C13.
 Input line (from `harness/src/bin/c13.rs`):
   `hex(src) \t classes \t tokens \t token_indices \t leading \t trailing \t leaves \t flags`
@@ -9,8 +10,20 @@ Output line:
 -/
 open Mimium Mimium.Lexer Mimium.Preparse Mimium.LexerIO
 
+/-- the ported parser on the token list; `none` = agrees with the real tree, error list and relabelling -/
+def cstDiff (ks : List Gen.Kind) (widths : List Nat) (itree ierrs irel : String) : Option String :=
+  let st := Grammar.parseTokens ks widths
+  let mTree := GrammarIO.showRoot st
+  let mErrs := GrammarIO.showErrs st.errs
+  let mRel := GrammarIO.showRelabels ks st
+  if st.oof then some s!"DIFF:fuel\tout of fuel {Grammar.fuelBound (preparse ks).tokenIndices.length}"
+  else if mTree != itree then some s!"DIFF:cst\t{mTree}"
+  else if mErrs != ierrs then some s!"DIFF:cst-errors\t{mErrs}"
+  else if mRel != irel then some s!"DIFF:cst-relabels\t{mRel}"
+  else none
+
 /-- `K` lines: arbitrary kind sequences fed to the real `preparse`/`parse_cst`; only the preparse model and the judge apply -/
-def c13Kinds (itoks iidx ilead itrail ileaves : String) : String :=
+def c13Kinds (itoks iidx ilead itrail ileaves itree ierrs irel : String) : String :=
   match parseTokens itoks with
   | none => "bad-input\tbad-input\t0\t0\t0\ttokens"
   | some ts =>
@@ -24,7 +37,9 @@ def c13Kinds (itoks iidx ilead itrail ileaves : String) : String :=
       else if mL != ilead then s!"DIFF:leading\t{mL}"
       else if mR != itrail then s!"DIFF:trailing\t{mR}"
       else if mI != ileaves then s!"DIFF:leaves\t{mI}"
-      else "ok\t"
+      else match cstDiff ks (ts.map Token.len) itree ierrs irel with
+        | some d => d
+        | none => "ok\t"
     let (judge, nTriv, nDrop) :=
       match parseNats iidx, parseMap ilead, parseMap itrail, parseNats ileaves with
       | some idx, some ld, some tr, some lv =>
@@ -43,8 +58,9 @@ def c13Kinds (itoks iidx ilead itrail ileaves : String) : String :=
 
 def c13Line (line : String) : String :=
   match line.splitOn "\t" with
-  | "K" :: _ :: itoks :: iidx :: ilead :: itrail :: ileaves :: _ => c13Kinds itoks iidx ilead itrail ileaves
-  | hex :: cls :: itoks :: iidx :: ilead :: itrail :: ileaves :: _flags =>
+  | "K" :: _ :: itoks :: iidx :: ilead :: itrail :: ileaves :: _ :: itree :: ierrs :: irel :: _ =>
+    c13Kinds itoks iidx ilead itrail ileaves itree ierrs irel
+  | hex :: cls :: itoks :: iidx :: ilead :: itrail :: ileaves :: _flags :: itree :: ierrs :: irel :: _ =>
     match decodeHex hex with
     | none => "bad-input\tbad-input\t0\t0\t0\thex"
     | some s =>
@@ -63,7 +79,9 @@ def c13Line (line : String) : String :=
         else if mL != ilead then s!"DIFF:leading\t{mL}"
         else if mR != itrail then s!"DIFF:trailing\t{mR}"
         else if mLeaves != ileaves then s!"DIFF:leaves\t{mLeaves}"
-        else "ok\t"
+        else match cstDiff ks (mtoks.map Token.len) itree ierrs irel with
+          | some d => d
+          | none => "ok\t"
       -- judge the implementation's own output
       let (judge, nTriv, nDrop) :=
         match parseTokens itoks, parseNats iidx, parseMap ilead, parseMap itrail, parseNats ileaves with
